@@ -98,6 +98,7 @@ static inline void _urcu_mb_read_unlock_update_and_wakeup(unsigned long tmp)
 
 	if (caa_likely((tmp & URCU_GP_CTR_NEST_MASK) == URCU_GP_COUNT)) {
 		uatomic_store(ctr, tmp - URCU_GP_COUNT, CMM_SEQ_CST);
+		urcu_verif_point(URCU_VP_READ_UNLOCK_PRE_WAKE, ctr);
 		urcu_common_wake_up_gp(&urcu_mb_gp);
 	} else {
 		uatomic_store(ctr, tmp - URCU_GP_COUNT);
